@@ -1,18 +1,18 @@
-\* generated by mkstorecfg.py - edge cover for C04
+\* generated by mkstorecfg.py - edge cover, l1info reorgs
 CONSTANTS
-  Kind = "bridge"
+  Kind = "l1info"
   Fixed = TRUE
-  H = 3
+  H = 2
   MaxBlocks = 3
   MaxEvents = 2
-  MaxLeaves = 5
-  MaxOps = 5
+  MaxLeaves = 3
+  MaxOps = 4
   Faults = {}
   AllowGap = FALSE
   AllowRestart = FALSE
   AllowReorg = TRUE
-  Rollups = {}
-  ExitRoots = {}
+  Rollups = {1, 2}
+  ExitRoots = {0, 1}
 INIT Init
 NEXT Next
 VIEW view
